@@ -136,6 +136,56 @@ def teddy_kernel(fname, path, lmax, fplen, width, fat=False, base_shift=0):
     return dict(fname=fname, path=path, frame=frame, regions=regions, assumptions=assumptions, ret_slots={32: 8, 40: 1}, spec=spec, H=H, LEN=LEN)
 
 
+def fat_teddy_kernel(lmax, base_shift=0):
+    """fatTeddyAVX2_2(masks *fatTeddyMasks, haystack []byte) (pos int, bucketMask uint16): 16 buckets,
+    low 16 bytes of each 32-byte row = buckets 0-7, high 16 bytes = buckets 8-15; fingerprint length 2."""
+    H, LEN = hay(lmax)
+    base = A.HAY_BASE + base_shift
+    T = [BitVec("m%d" % i, 8) for i in range(264)]
+    frame = {0: (bv(A.TAB_BASE, 64), 8), 8: (bv(base, 64), 8), 16: (LEN, 8), 24: (LEN, 8)}
+    regions = [A.Region("haystack", base, lmax, LEN, H), A.Region("masks", A.TAB_BASE, 264, bv(264, 64), T)]
+    assumptions = [ULE(LEN, bv(lmax, 64))]
+
+    def lut(row_off, nib):
+        t = bv(0, 8)
+        for k in reversed(range(16)):
+            t = If(nib == bv(k, 4), T[row_off + k], t)
+        return t
+
+    def cand(i):
+        lo, hi = bv(0xFF, 8), bv(0xFF, 8)
+        for p in range(2):
+            b = H[i + p]
+            lo = lo & lut(8 + 32 * p, Extract(3, 0, b)) & lut(136 + 32 * p, Extract(7, 4, b))
+            hi = hi & lut(8 + 32 * p + 16, Extract(3, 0, b)) & lut(136 + 32 * p + 16, Extract(7, 4, b))
+        return Concat(hi, lo)
+
+    def spec():
+        pos, mask = bv(-1, 64), bv(0, 16)
+        for i in reversed(range(lmax - 1)):
+            c = cand(i)
+            ok = And(ULE(bv(i + 2, 64), LEN), c != bv(0, 16))
+            pos = If(ok, bv(i, 64), pos)
+            mask = If(ok, c, mask)
+        return {32: pos, 40: mask}
+    def contract(rets):
+        """Soundness contract (the real kernel reports spurious candidates, e.g. at position 0, which the
+        caller's verification loop filters out; what Find's correctness needs is that no true candidate is
+        skipped): pos == -1 => there is no true candidate; pos >= 0 => pos < len, mask != 0, pos <= first true
+        candidate, and at the first true candidate the reported mask contains the true bucket bits."""
+        sp = spec()
+        tpos, tmask = sp[32], sp[40]
+        gpos, gmask = rets[32][0], rets[40][0]
+        none = gpos == bv(-1, 64)
+        some = And(ULT(gpos, LEN), gmask != bv(0, 16),
+                   Or(tpos == bv(-1, 64), ULE(gpos, tpos)),
+                   Or(gpos != tpos, (gmask & tmask) == tmask))
+        return Or(And(none, tpos == bv(-1, 64), gmask == bv(0, 16)), And(Not(none), some))
+    return dict(fname="fatTeddyAVX2_2", path=os.path.join(REPO, "prefilter", "teddy_avx2_amd64.s"), frame=frame, regions=regions, assumptions=assumptions,
+                ret_slots={32: 8, 40: 2}, spec=spec, contract=contract, H=H, LEN=LEN,
+                note="relational contract (no true candidate skipped), not equality: the kernel over-approximates candidates")
+
+
 def teddy_kernels(lmax, base_shift=0):
     P = os.path.join(REPO, "prefilter")
     return [
@@ -143,6 +193,7 @@ def teddy_kernels(lmax, base_shift=0):
         teddy_kernel("teddySlimSSSE3_2", P + "/teddy_ssse3_amd64.s", lmax, 2, 16, base_shift=base_shift),
         teddy_kernel("teddySlimAVX2_1", P + "/teddy_slim_avx2_amd64.s", lmax, 1, 32, base_shift=base_shift),
         teddy_kernel("teddySlimAVX2_2", P + "/teddy_slim_avx2_amd64.s", lmax, 2, 32, base_shift=base_shift),
+        fat_teddy_kernel(lmax, base_shift),
     ]
 
 
@@ -157,6 +208,19 @@ def run_kernel(k, timeout_ms=120000):
         bad = []
         inconcl = 0
         for pcs, rets, bufw in res:
+            if "contract" in k:
+                missing = [off for off in k["ret_slots"] if off not in rets]
+                if missing:
+                    bad.append("path returns without writing result slot(s) %s" % missing)
+                    continue
+                okc = k["contract"](rets)
+                r = ex.check(*pcs, Not(okc))
+                if r == sat:
+                    m = ex.model_of(*pcs, Not(okc))
+                    bad.append("result violates the kernel contract (model: %s)" % A.compact_model(m))
+                elif r != unsat:
+                    inconcl += 1
+                continue
             for off, want in spec.items():
                 if off not in rets:
                     bad.append("path returns without writing result slot %d(FP)" % off)
@@ -174,6 +238,8 @@ def run_kernel(k, timeout_ms=120000):
                     "solver_s": round(ex.stats["solver_s"], 2), "closure": str(cl), "violations": bad[:5], "inconclusive_results": inconcl,
                     "mnemonics": sorted(ex.mnemonics)})
         out["ok"] = (not bad) and cl == unsat and inconcl == 0
+        if "note" in k:
+            out["note"] = k["note"]
         if bad:
             out["kind"] = "result"
     except A.Violation as v:
